@@ -222,10 +222,50 @@ theorem regexLoop_le : ∀ (f : Nat) (acc cs : List Char), utf8Len (regexLoop f 
       have h2 := ih (acc ++ (takeTill (fun c => c == '\\' || c == '/') (c :: r)).1) (takeTill (fun c => c == '\\' || c == '/') (c :: r)).2
       omega
 
+theorem regexLoop_acc : ∀ (f : Nat) (acc cs : List Char),
+    utf8Len (regexLoop f acc cs).1 + utf8Len (regexLoop f acc cs).2 ≤ utf8Len acc + utf8Len cs := by
+  intro f
+  induction f with
+  | zero => intro acc cs; simp [regexLoop]
+  | succ f ih =>
+    intro acc cs
+    simp only [regexLoop]
+    split
+    · rename_i r
+      have := ih (acc ++ ['/']) r
+      simp only [utf8Len_append, utf8Len_cons, utf8Len_nil] at this ⊢
+      have h1 : ('/' : Char).utf8Size = 1 := by decide
+      have h2 : ('\\' : Char).utf8Size = 1 := by decide
+      omega
+    · rename_i r _
+      have := ih (acc ++ ['\\']) r
+      simp only [utf8Len_append, utf8Len_cons, utf8Len_nil] at this ⊢
+      omega
+    · exact Nat.le_refl _
+    · exact Nat.le_refl _
+    · rename_i c r _ _ _
+      have h1 := takeTill_utf8 (fun c => c == '\\' || c == '/') (c :: r)
+      have h2 := ih (acc ++ (takeTill (fun c => c == '\\' || c == '/') (c :: r)).1) (takeTill (fun c => c == '\\' || c == '/') (c :: r)).2
+      simp only [utf8Len_append] at h2
+      omega
+
+theorem lookupSpan_some (tbl : List (List Char × Nat × Nat)) (k : List Char) (a b : Nat) (h : lookupSpan tbl k = some (a, b)) :
+    a ≤ b ∧ b ≤ utf8Len k := by
+  unfold lookupSpan at h
+  split at h
+  · split at h
+    · rename_i e _ hc
+      simp only [Option.some.injEq] at h
+      rw [h] at hc; exact hc
+    · cases h
+  · cases h
+
 theorem parseRegex_bd (cx : Ctx) (st : St) (h : Bd cx st) :
     Bd cx (parseRegex cx st).2 ∧ utf8Len (parseRegex cx st).2.rest ≤ utf8Len st.rest := by
   unfold parseRegex
   have hrl := regexLoop_le (st.rest.length + 1) [] st.rest
+  have hacc := regexLoop_acc (st.rest.length + 1) [] st.rest
+  have hpa := pos_add cx st h
   simp only
   split
   · rename_i r hr
@@ -233,7 +273,12 @@ theorem parseRegex_bd (cx : Ctx) (st : St) (h : Bd cx st) :
     obtain ⟨v1, v2⟩ := valid_bd cx (st.withRest (regexLoop (st.rest.length + 1) [] st.rest).2) true (regexLoop (st.rest.length + 1) [] st.rest).1 hb
     split
     · exact ⟨v1, by rw [v2]; exact hrl⟩
-    · exact ⟨report_bd cx _ _ _ _ v1 (by omega), by simp only [St.report]; rw [v2]; exact hrl⟩
+    · split
+      · rename_i a b hl
+        obtain ⟨hab, hbt⟩ := lookupSpan_some _ _ a b hl
+        simp only [utf8Len_nil] at hacc
+        exact ⟨report_bd cx _ _ _ _ v1 (by omega), by simp only [St.report]; rw [v2]; exact hrl⟩
+      · exact ⟨report_bd cx _ _ _ _ v1 (by unfold pos; simp only [St.withRest]; omega), by simp only [St.report]; rw [v2]; exact hrl⟩
   · have hle := takeTill_le (· == ')') st.rest
     have hb := withRest_bd cx st _ h hle
     exact ⟨report_bd cx _ _ _ _ hb (by unfold pos; omega), hle⟩
@@ -552,11 +597,11 @@ theorem expr_bd (cx : Ctx) : ∀ (f : Nat),
 
 /-- **every error span the parser records lies inside the input** — for every input string and every regex/glob validity
     oracle: `offset + length ≤` the byte length of the input -/
-theorem parseTop_spans (input : List Char) (rv gv : List (List Char × Bool)) :
-    ∀ e ∈ (parseTop (mkCtx input rv gv) input).2.errs, e.off + e.len ≤ utf8Len input := by
-  have hinit : Bd (mkCtx input rv gv) { rest := input, errs := [], needs := [] } :=
+theorem parseTop_spans (input : List Char) (rv gv : List (List Char × Bool)) (re : List (List Char × Nat × Nat)) :
+    ∀ e ∈ (parseTop (mkCtx input rv gv re) input).2.errs, e.off + e.len ≤ utf8Len input := by
+  have hinit : Bd (mkCtx input rv gv re) { rest := input, errs := [], needs := [] } :=
     ⟨by simp [mkCtx], by intro e he; cases he⟩
-  have h1 := (expr_bd (mkCtx input rv gv) (fuelFor input)).1 _ hinit
+  have h1 := (expr_bd (mkCtx input rv gv re) (fuelFor input)).1 _ hinit
   unfold parseTop
   simp only
   split
